@@ -86,7 +86,44 @@ def _c01_rule(op, args, impl):
     return True
 
 
+def _pm_rule(op, args, impl):
+    # non-trivial: a polynomial argument of degree >= 2
+    return any(a.count(",") >= 2 for a in args[:2])
+
+
+_PM_TRUST = ["hooked RNG + Lean draw decoder (gen_range for BigInt = gen_bigint_range)",
+             "primality of the modulus for the oracle: reference test below 2^64, fixed list of known primes above (2^64+13, 2^89-1, 2^107-1, 2^127-1)",
+             "private stages (squarefree, degree, final_split*, hensel_lift, find_linear_factors_impl) are exercised only through the public entry points"]
+
 INFO = {
+    "C12": {
+        "rule": "primitives of prim.rs (divrem, gcd, modpow, ext-gcd witness, x-a division, evaluation) on random and edge inputs; find_linear_factors on every polynomial up to a degree bound over F_2..F_13, random f of degree <= 12 over primes up to 2^61 (and beyond 2^64) built as c*prod (x-r_i)^e_i * g with g root-free by construction; scripted histories where the drawn shift is a root and where draws never split; the random history of every run is replayed into the model. Non-trivial: polynomial of degree >= 2; distinct = distinct (op,args incl. history).",
+        "rulefn": _pm_rule,
+        "trusted": _PM_TRUST,
+        "gaps": ["the returned multiset equals the roots of f in F_p with multiplicity (soundness and completeness of the gcd splitting, Euler criterion): certified on every explored case by brute force (p <= 2000) or by exact division by the planted roots and gcd(x^p - x, cofactor) = 1; termination is probabilistic"],
+        "assumptions": ["p prime, f mod p non-zero"],
+        "level_text": "Theorems: every drawn shift is in [0,p) for every RNG stream, the root test and the modular inverse used by the routine are correct (congruence / Fermat). The multiset equality itself is certified per explored case by an independent oracle; the model is tied to linear.rs and prim.rs by replaying the captured random history.",
+        "level_note": "Trusted: Lean kernel + 3 standard axioms; RNG hook/decoder; correspondence coverage. Partial: the root multiset statement is certified per explored case, not proved.",
+    },
+    "C11": {
+        "rule": "lift_factorization on c built from known distinct monic irreducibles mod p (brute-force enumeration for small p; linear and x^2-n factors for large p) times a unit plus p*noise; p in {2,3,5,7,13,101,2^61-1}, e <= 12, 1..8 factors, non-monic c, negative coefficients; poly_coprime_witness on coprime and non-coprime pairs; precondition violations (repeated factor, p | lc, e = 0) are run through the model only. Non-trivial: polynomial of degree >= 2.",
+        "rulefn": _pm_rule,
+        "trusted": _PM_TRUST,
+        "gaps": ["the model-level statement lift_spec (g_i monic, in [0,p^e), g_i = f_i mod p, prod g_i = c/lc mod p^e) is certified on every explored case; the algebraic step is a theorem in Z[X] but its instantiation on the list model (refinement of poly_divrem / poly_mod) is outstanding",
+                 "a*u + b*v = 1 mod p for the witness: certified per case"],
+        "assumptions": ["p prime, p not dividing lc(c), c squarefree mod p, factors = its distinct monic irreducible factors"],
+        "level_text": "Theorems: the algebraic core of hensel_lift in Z[X] for an arbitrary quotient (c = ab mod q, au+bv = 1 mod r, r | q imply c = a1 b1 mod qr, a1 = a, b1 = b mod q) and the e = 1 case of the model. The full conclusion is certified per explored case; deterministic code, model compared textually.",
+        "level_note": "Trusted: Lean kernel + 3 standard axioms; correspondence coverage. Partial: see gaps.",
+    },
+    "C08": {
+        "rule": "factorize_mod_p on every polynomial up to a degree bound over F_2, F_3, F_5, F_7, random degree <= 16 over primes up to 2^61 and beyond 2^64 (pusize in {0, 7, p mod 2^64} on the same captured history), p-th powers, products of equal-degree irreducibles, leading coefficient divisible by p; primitives of prim.rs. Non-trivial: polynomial of degree >= 2.",
+        "rulefn": _pm_rule,
+        "trusted": _PM_TRUST,
+        "gaps": ["monic, range, distinctness, product identity and irreducibility (Rabin test cross-checked by brute-force division) are certified on every explored case; pusize irrelevance for p >= 2^64 is checked on every such case with three values on the same history; termination of the random splitting is probabilistic"],
+        "assumptions": ["p prime, f mod p non-zero; for p < 2^64 callers pass pusize = p"],
+        "level_text": "Theorems: modpow is modular exponentiation and modinv a modular inverse for prime p (the two arithmetic facts every stage relies on). The property's conclusion is certified per explored case by an independent oracle; the model (squarefree / distinct-degree / Cantor-Zassenhaus with the captured random history) is compared textually with the implementation.",
+        "level_note": "Trusted: Lean kernel + 3 standard axioms; RNG hook/decoder; correspondence coverage. Partial: see gaps.",
+    },
     "C01": {
         "cli": True,
         "rule": "point add/mul, ecm_oneshot and the batched many_simplify/many_adds/ecm_oneshot_parallel on random curves and points (finite, infinite, equal, opposite, multiples of one another, un-normalised) modulo 53 moduli: small composites, primes, prime powers, products up to 2^92, B1 in 0..30 and at the u64 boundary; select_b on [-5, 1005] and on sizes up to 100000 bits; ecm / ecm_parallel::ecm on composites with B1 = select_b, small B1 and B1 = 0; the three factorize entry points on every n in [1, 3000] (thorough 10^5), n <= 0, prime powers up to 2^70, 2^a*m, Carmichael numbers, semiprimes, cubes and fifth powers of primes up to 2^32 (thorough 2^40), smooth x rough products, products of three primes, 2*p and p for Mersenne primes up to 2^607-1 (batched driver up to 2^127-1); scripted histories (first doubling not invertible, draws 1 and n-1, a batch whose curves fail at different primes so that gcd = n, singular curve modulo one factor, liar bases before a witness); every run's random history (curves, points and the Miller-Rabin bases drawn inside the drivers) is captured by the hook and replayed into the model, in a dev-profile and a release-profile build of the harness; with RFACTOR_BIN set, stdout of `rfactor n` / `rfactor --json n`. Non-trivial: n > 3; distinct = distinct (op,args incl. history).",
